@@ -534,8 +534,15 @@ def run(tier, seed, replay):
         with warnings.catch_warnings():
             warnings.simplefilter("ignore")
             try:
-                c = qutip.coefficient(expr, args=argvals)
+                caller_dict = dict(argvals)
+                c = qutip.coefficient(expr, args=caller_dict)
                 gots = [complex(c(tt)) for tt in tts]
+                # a coefficient is a value: what the caller does to its dictionary afterwards does not reach it
+                for k_ in list(caller_dict):
+                    caller_dict[k_] = caller_dict[k_] * 3 + 2
+                caller_dict["t0_unused"] = 1.0
+                if [complex(c(tt)) for tt in tts] != gots:
+                    v("string-aliases-args", f"string coefficient {expr!r} changes when the caller modifies the args dictionary it was built from", {"expr": expr, "args": {k: str(x) for k, x in argvals.items()}})
                 newvals = {k: (x + 1) for k, x in argvals.items()}
                 c2 = c.replace_arguments(newvals) if newvals else c
                 gots2 = [complex(c2(tt)) for tt in tts]
